@@ -50,6 +50,8 @@ def cases(shard, rnd):
         for k in range(shard['n']):
             yield wire.header_frame(rnd, allow_refuse=(k % 9 == 0),
                                     continuation=(k % 50 == 0))
+        for n in (131065, 131073, 300000):
+            yield wire.body_frame(rnd, n)
         for k in range(60):
             yield wire.body_frame(rnd)
             yield wire.heartbeat_frame(rnd)
